@@ -33,14 +33,21 @@ pub const B: Id = Id(1);
 pub const C_: Id = Id(2);
 pub const G: Id = Id(10);
 pub const H: Id = Id(11);
+/// Only used by the hand-built nesting scenarios of C31.
+pub const D_: Id = Id(3);
+pub const I_: Id = Id(12);
+pub const J_: Id = Id(13);
 
 pub fn idn(i: Id) -> &'static str {
     match i.0 {
         0 => "a",
         1 => "b",
         2 => "c",
+        3 => "d",
         10 => "G",
         11 => "H",
+        12 => "I",
+        13 => "J",
         _ => "?",
     }
 }
